@@ -30,7 +30,8 @@ sticky flags `apu.crash`, `apu.ch3.crash` (wave-RAM index of a WRITE while the c
 `takeSample`); (2) the very first machine cycle after power-on: `oam.New` leaves `ppuLastAccess = 0`, outside
 FE00–FE9F, until the first `ppu.EndMachineCycle` – the invariant holds from the end of the first cycle on (see the
 example at the end; the first CPU cycle cannot touch OAM because of the power-on register values, which is not
-proved here).
+proved here).  BOTH gaps are closed in Proofs/WholeNoCrash.lean (`c11_whole_never_panics`: invariant `WholeOk` =
+this file's `BoardOk` – or its power-on variant for the first cycle – plus `CpuOk` and `ApuOk`).
 -/
 namespace Tetro.WholeSafe
 open Tetro.Model Tetro.Model.Render Tetro.Model.Whole Tetro.Model.Machine Tetro.LcdLemmas
@@ -427,6 +428,37 @@ theorem whole_run_no_crash (n : Nat) (w : Whole) (h : BoardOk w.b) :
   induction n generalizing w with
   | zero => exact ⟨h, h.alive⟩
   | succ n ih => exact ih w.cycle (whole_no_crash_partial w h)
+
+/-! ### additions used by Proofs/WholeNoCrash.lean (the first cycle after power-on, the full invariant) -/
+
+/-- `ppu.EndMachineCycle` in a cycle that stays in / enters mode 2 with the LCD on: the sprite search sets
+    `ppuLastAccess`, so the OAM unit is `Safe` afterwards WHATEVER `ppuLastAccess` was before (after `oam.New`
+    it is 0) – only the DMA part of `Safe` is needed of the state before -/
+theorem whole_ppu_step_mode2 (b : Board) (alive : b.crashed = false) (cart : WellFormed b.m.cart)
+    (lcd : ∃ s, Rel s b.m.ppu) (dma : DmaOk b.m.oam) (la : b.apu.ch3.lastAccessed < 16)
+    (hen : b.m.ppu.enabled = true) (hm2 : Lcd.nextMode b.m.ppu.mode b.m.ppu.ticks = 2) : BoardOk b.ppuStep := by
+  obtain ⟨s, hs⟩ := lcd
+  obtain ⟨r, hr, hrel, hm, h2⟩ := lcd_facts s b.m.ppu hs
+  obtain ⟨pix', hpix⟩ := whole_render_tick_total (sceneOf b.m) (syncPix b.m.ppu b.pix) hm h2
+  rw [Tetro.WholeProofs.whole_step_ppu, hpix]
+  unfold ppuTick
+  rw [hr]
+  simp only [Option.map_some]
+  refine ⟨alive, cart, ⟨_, hrel⟩, ?_, la⟩
+  show Safe (if b.m.ppu.enabled then oamAfterTick b.m.ppu b.m.oam else b.m.oam)
+  rw [if_pos hen]
+  unfold oamAfterTick
+  simp only []
+  rw [if_pos hm2]
+  have := h2 hm2
+  refine ⟨?_, dma⟩
+  unfold PlaOk
+  simp only [BitVec.toNat_ofNat]
+  omega
+
+/-- IME / IF updates by the CPU keep the board invariant -/
+theorem whole_cpu_setIntr (b : Board) (h : BoardOk b) (i : Intr) : BoardOk (b.setIntr i) :=
+  ⟨h.alive, h.cart, h.lcd, h.oam, h.la⟩
 
 /-! ### non-vacuity: the demo machine (all-NOP ROM-only cartridge) satisfies the invariant after its first cycle -/
 
